@@ -6,6 +6,7 @@ import (
 	"sync"
 	"time"
 
+	"github.com/sassoftware/relic/v8/lib/verifhook"
 	"github.com/sassoftware/relic/v8/token"
 )
 
@@ -40,14 +41,19 @@ func (c *Cache) GetKey(ctx context.Context, keyName string) (token.Key, error) {
 		// one matches before returning it
 		haveKeyID := cached.key.GetID()
 		if len(wantKeyID) == 0 || bytes.Equal(wantKeyID, haveKeyID) {
+			verifhook.Emit("CacheHit", "c", c, "name", keyName, "want", wantKeyID, "id", haveKeyID)
 			return cached.key, nil
 		}
 	}
+	verifhook.Emit("CacheMiss", "c", c, "name", keyName, "want", wantKeyID)
 	key, err := c.Token.GetKey(ctx, keyName)
 	if err != nil {
+		verifhook.Emit("CacheFetch", "c", c, "name", keyName, "want", wantKeyID, "ok", false)
 		return nil, err
 	}
+	verifhook.Emit("CacheFetch", "c", c, "name", keyName, "want", wantKeyID, "ok", true, "id", key.GetID())
 	if c.expiry > 0 && len(wantKeyID) == 0 {
+		verifhook.Emit("CacheStore", "c", c, "name", keyName, "id", key.GetID())
 		// only cache if the caller did not request a specific key ID
 		c.keys[keyName] = cachedKey{
 			expires: time.Now().Add(c.expiry),
